@@ -293,6 +293,32 @@ pfn_regions_from_bitmap(kdump_errmsg_t *err, struct pfn_file_map *pfm,
 	return KDUMP_OK;
 }
 
+/** Find a PFN region by PFN in an array of PFN-to-file maps.
+ * @param ppfm    First map to be searched; updated to the map which
+ *                contains the region on success.
+ * @param endmap  End of the array of maps.
+ * @param pfn     Page frame number.
+ * @returns       Pointer to a PFN region which contains @c pfn or the
+ *                closest higher PFN, or @c NULL if there is no such region.
+ *
+ * If the first map has no region at or above @c pfn (or no region at all),
+ * the search continues in the following maps.
+ */
+static const struct pfn_region *
+find_pfn_region_maps(const struct pfn_file_map **ppfm,
+		     const struct pfn_file_map *endmap, kdump_pfn_t pfn)
+{
+	const struct pfn_file_map *pfm;
+	const struct pfn_region *rgn;
+
+	for (pfm = *ppfm; pfm < endmap; ++pfm)
+		if ( (rgn = find_pfn_region(pfm, pfn)) ) {
+			*ppfm = pfm;
+			return rgn;
+		}
+	return NULL;
+}
+
 /** Find the next mapped PFN.
  * @param maps   Array of PFN-to-file maps.
  * @param nmaps  Number of elements in @p maps.
@@ -307,7 +333,7 @@ find_mapped_pfn(const struct pfn_file_map *maps, size_t nmaps,
 	const struct pfn_region *rgn;
 
 	if (! (pfm = find_pfn_file_map(maps, nmaps, *ppfn)) ||
-	    ! (rgn = find_pfn_region(pfm, *ppfn)))
+	    ! (rgn = find_pfn_region_maps(&pfm, maps + nmaps, *ppfn)))
 		return false;
 
 	if (rgn->pfn > *ppfn)
@@ -346,27 +372,18 @@ void
 get_pfn_map_bits(const struct pfn_file_map *maps, size_t nmaps,
 		 kdump_addr_t first, kdump_addr_t last, unsigned char *bits)
 {
-	const struct pfn_file_map *pfm, *last_pfm;
-	const struct pfn_region *rgn, *end;
+	const struct pfn_file_map *pfm, *endmap = maps + nmaps;
+	const struct pfn_region *rgn;
 	kdump_addr_t cur, next;
 
 	if (! (pfm = find_pfn_file_map(maps, nmaps, first)) ||
-	    ! (rgn = find_pfn_region(pfm, first))) {
+	    ! (rgn = find_pfn_region_maps(&pfm, endmap, first))) {
 		memset(bits, 0, ((last - first) >> 3) + 1);
 		return;
 	}
 
 	/* Clear extra bits in the last byte of the raw bitmap. */
 	bits[(last - first) >> 3] = 0;
-
-	/* Clear bits beyond last PFN region. */
-	last_pfm = &maps[nmaps - 1];
-	end = last_pfm->regions + last_pfm->nregions - 1;
-	next = end->pfn + end->cnt;
-	if (next <= last) {
-		clear_bits(bits, next - first, last - first);
-		last = next - 1;
-	}
 
 	cur = first;
 	for ( ;; ) {
@@ -389,7 +406,12 @@ get_pfn_map_bits(const struct pfn_file_map *maps, size_t nmaps,
 		cur = next + 1;
 		if (++rgn == &pfm->regions[pfm->nregions]) {
 			++pfm;
-			rgn = pfm->regions;
+			rgn = find_pfn_region_maps(&pfm, endmap, cur);
+			if (!rgn) {
+				/* Clear bits beyond last PFN region. */
+				clear_bits(bits, cur - first, last - first);
+				break;
+			}
 		}
 	}
 }
